@@ -64,7 +64,7 @@ class Parser(parsmod.Visitor[sql.Selectable, sql.ColumnElement]):  # pylint: dis
         function.NotNull: lambda c: c.is_not(None),
         function.And: operator.and_,
         function.Or: operator.or_,
-        function.Not: operator.not_,
+        function.Not: sql.not_,
         function.Cast: lambda c, k: sql.cast(c, Parser.KIND[k]),
         function.Avg: func.avg,
         function.Count: func.count,
@@ -72,7 +72,7 @@ class Parser(parsmod.Visitor[sql.Selectable, sql.ColumnElement]):  # pylint: dis
         function.Max: func.max,
         function.Sum: func.sum,
         function.Year: func.year,
-        function.Abs: operator.abs,
+        function.Abs: func.abs,
         function.Ceil: func.ceil,
         function.Floor: func.floor,
     }
